@@ -541,11 +541,15 @@ class Client(base_client.BaseClient):
                     self._handle_ack(pkt.namespace, pkt.id, pkt.data)
         else:
             pkt = self.packet_class(encoded_packet=data)
-            if pkt.attachment_count == 0:
+            if pkt.attachment_count == 0 and pkt.packet_type in (
+                    packet.BINARY_EVENT, packet.BINARY_ACK):
+                if not getattr(pkt, 'attachments_announced', False):
+                    raise ValueError('Binary packet without attachment '
+                                     'count.')
                 # a binary packet that announces no attachments is complete
                 if pkt.packet_type == packet.BINARY_EVENT:
                     pkt.packet_type = packet.EVENT
-                elif pkt.packet_type == packet.BINARY_ACK:
+                else:
                     pkt.packet_type = packet.ACK
             if pkt.packet_type == packet.CONNECT:
                 if not self._transport_ended:
